@@ -31,7 +31,7 @@ var Types = []string{"boolean", "number", "integer", "string", "array", "object"
 var Patterns = []string{"^a", "b$", "^[a-c]+$", "[0-9]", "^..$", "^(ab)*$", "a|😀"}
 
 // the last four have no validator registered by default: they constrain nothing, and nothing else may change because of them
-var StringFormats = []string{"date", "date-time", "byte", "ipv4", "ipv6", "email", "password", "binary", "uuid", "hostname"}
+var StringFormats = []string{"date", "date-time", "byte", "ipv4", "ipv6", "email", "password", "binary", "uuid", "hostname", "x-wrapped-ip"}
 
 var enumPool = []any{nil, true, false, 0.0, 1.0, 2.0, 1.5, "a", "ab", "", "12", []any{}, []any{1.0}, []any{1.0, "a"}, map[string]any{}, map[string]any{"a": 1.0}}
 
